@@ -548,6 +548,36 @@ fn ops(req: &Value) -> Value {
                     json!({"not_found": true})
                 }
             }
+            // a second `<I18nContextProvider>` rendered below a place where a context already exists: it must hand its children
+            // the existing context (observed like `use_ctx`), not a fresh one
+            "provide_again" => {
+                let o = owner_at(&tree, s, "owner");
+                let c = o.with(|| Owner::current().unwrap().child());
+                let slot: Arc<Mutex<Option<I18nContext<Locale>>>> = Default::default();
+                let slot2 = slot.clone();
+                let view = c.with(|| {
+                    view! {
+                        <I18nContextProvider enable_cookie=false ssr_lang_header_getter=lang_opts(None)>
+                            {
+                                *slot2.lock().unwrap() = Some(use_i18n());
+                                ()
+                            }
+                        </I18nContextProvider>
+                    }
+                    .into_any()
+                });
+                kept.push(Box::new(view));
+                std::mem::forget(c);
+                let ctx = slot.lock().unwrap().take().expect("children of I18nContextProvider did not run");
+                let nv = view0(ctx);
+                let found = ctx_id(&nv, &views, &reps);
+                views.push(nv);
+                let cid = found.unwrap_or_else(|| {
+                    reps.push(views.len() - 1);
+                    reps.len() - 1
+                });
+                json!({"view": views.len() - 1, "ctx": cid})
+            }
             "scope" => {
                 let v = view_at(&views, s, "view");
                 let nv = (views[v].scope)();
